@@ -148,6 +148,7 @@ fn empty_tag_suffix(bytes: &[u8]) -> bool {
 
 fn reader_diff_id(bytes: &[u8], double_bom: bool, both_err: bool) -> &'static str {
     if double_bom { "C09-double-bom" }
+    else if bytes.contains(&0) { "C09-nul-ends-string-input" }
     else if empty_tag_suffix(bytes) { "C09-reader-empty-tag-suffix" }
     else if both_err { "C09-reader-error-differs" } else { "C09-reader-disagrees" }
 }
@@ -384,6 +385,9 @@ fn corpus_docs(rng: &mut Rng, thorough: bool) -> Vec<Vec<u8>> {
         "x: \"\\ud83d\\ude00\"", "%YAML", "%TAG", "%YAML 1.2", "%YAML 1.2\n---\na\n", "a\n...\n%x", "%TAG ! tag:x,2000:\n--- !a b\n", "a\n%", "%\n", "--- a\n...\n%YAML 1.2\n--- b", "!!binary aGk=", "!!float 007", "- !!binary aGk=\n- b\n", "!!str plain", "a\u{85}b: 1\n", "a\u{2028}b\n", "\u{feff}", "\u{feff}\u{feff}", "a\u{feff}b\n", "k: \u{feff}\n",
         // errors at the START of an unterminated last line after non-ASCII text in a comment / directive line (fix 08f5b65: the
         // reader path took such a token for the scanner's closing mark), and real closing marks after such lines
+        // U+0000 in the text: the external scanner's string input takes NUL for the end of the input, its buffered (reader)
+        // input keeps reading — class C09-nul-ends-string-input
+        "---\0", "# c\0...", "a: 1\0\nb: x", "a\0b", "- x\0\n- y\n", "k: \"q\0r\"\n",
         "#é\n[", "# é\n]", "a: 1 # é\n]", "#é\n---\n[", "%?é,\n}", "#é\r[x", "a: [1\r\n# é\r]", "# é", "k: 1 # é\n# €😀", "#é\n&x", "#é\nk: &a", "a\n...\n%x é"] {
         v.push(s.as_bytes().to_vec());
         // with one / two byte-order marks in front
